@@ -19,6 +19,8 @@ structure St where
   minClaimPeriod : Nat := 0
   minBond : Nat := 0
   feeRates : List (Nat × Int) := []
+  crewards : List (Nat × List (Nat × Nat)) := []   -- multistaking delegator rewards on record, by account
+  minBondingTime : Nat := 0
 
 def nameId (names : List String) (n : String) : Option Nat := names.findIdx? (· == n)
 
